@@ -76,7 +76,7 @@ fn extra_cmd(src: &mut Src, g: &mut GenCfg) -> Cmd {
         25 => vec![b("ECHO"), g.val(src)],
         26 => vec![b("SELECT"), b(["0", "1", "x"][src.idx(3)])],
         27 => vec![b("HSET"), k, g.member(src)], // odd arity
-        28 => vec![b("ZADD"), k, b("NX"), b("XX"), b("1"), g.member(src)],
+        28 => { let f: &[&str] = [&["NX", "XX"][..], &["GT", "LT"][..], &["NX", "GT"][..], &["NX", "LT"][..], &["XX", "GT", "LT"][..]][src.idx(5)]; let mut c = vec![b("ZADD"), k]; for x in f { c.push(b(x)); } c.push(b("1")); c.push(g.member(src)); c }
         _ => vec![b("LPUSH"), k],
     }
 }
